@@ -10,6 +10,8 @@ HOOK_COMMITS = [
     "7c06555",  # container/verif_hooks.go: ring buffer raw accessor
     "6d9c0df",  # container/iterable/verif_hooks.go, container/lru/verif_hooks.go: list statistics accessors
     "d42f800",  # kvs/distlock/verif_hooks.go: lease period setter
+    "6bac5f6",  # container/iterable/verif_hooks.go: bounded list walk
+    "c999370",  # kvs/inmem/verif_hooks.go: waiter table accessor
 ]
 
 # id -> dict(text, note, technique, design_ref)
@@ -200,6 +202,68 @@ CHECKS["C09"] = dict(
          "under its lock. Bounded exhaustive on the model; schedules at critical-section granularity plus sampled free scheduling on the code.",
     technique="TLA+ concurrency spec model-checked by TLC, TLC-generated schedules replayed on the real cache through gated callbacks, TLC linearizability trace validation",
     design_ref="DESIGN.md section 4, C09")
+
+CHECKS["C17"] = dict(
+    text="TLC model-checks BlocksImpl (per-segment header bitmap bytes, freeIdx hint, first-fit scan loops, available counter) "
+         "and proves it refines the allocation contract BlockAlloc.tla (any free index; ErrExhausted iff full; FreeBlock nil/"
+         "ErrNotExist/ErrInvalid; Available = Count - |alloc|; Reopen keeps the set) together with HintSound/AvailOK: complete state "
+         "graph for block size 1 x 1 segment (thorough: also 1x2 and 2x1, 65 793 states each), bounded (<=1-3 holes) for 1x2, 1x3, 2x1, 2x2; "
+         "Geometry.tla checks the documented constructor rule against the coded one and the block/header offset arithmetic for 862 "
+         "geometries (block sizes -2..17, 32, 64, page/2, page-1, page, page+1, 3page/2, 2page; k segments -1/0/+1; both fit). One test per "
+         "edge / per geometry is replayed on real bytes.Blocks over NewInMemBytes and files.MMFile; after every single call a second "
+         "NewBlocks on a copy of the bytes must show the same Count, Available and allocation set, allocated blocks hold 0xFF-rich "
+         "patterns, block ranges (learned from the returned slices) must be disjoint from each other and from every byte the allocator "
+         "changes. Recorded seeded random runs (block sizes 1..4096, exhaustion, reopen) and 8-goroutine histories are validated by TLC "
+         "(BlocksTrace, BlocksLinTrace: linearizability). Bounded model checking plus conformance testing, not a proof for all geometries; "
+         "the concurrent part samples schedules.",
+    note="Trusted: TLC, the contract operators Allowed/After and Geometry!Valid, the adapter's transcription of the contract used for the "
+         "per-call snapshot comparison, page size probed from os.Getpagesize(); buffers above 64 MiB in geometry cases use an anonymous mapping; "
+         "tiny geometries on MMFile use the first n bytes of a 4096-byte file. Which free index is chosen is drift, never a verdict. No source hook.",
+    technique="TLA+ contract + implementation-shaped spec, TLC refinement/invariant check, per-edge behaviour replay with snapshot/reopen after "
+              "every call (in-memory and memory-mapped), TLC trace validation incl. linearizability of concurrent histories",
+    design_ref="DESIGN.md section 4, C17")
+CHECKS["C15"] = dict(
+    text="WireFormat.tla defines the xbinary wire format with 64-bit values as base-128 / base-256 digit sequences; TLC checks on it "
+         "Size(x) = Len(Enc(x)), Dec(Enc(x)) = x with consumed = produced over whole streams, and that the transcribed MarshalUint loop and "
+         "WritableUintSize tree agree with the format, for varints of every digit length 1..10 x per-position digit class {0,1,127} "
+         "(quick: all combinations up to 7 digits; thorough: all 39 366), every 8/16-bit value, byte-pattern products for 32/64-bit, byte strings "
+         "around the 1-2-3 byte prefix boundaries (0..2, 126..129, 16383..16385), every destination length 0..size+1, all concatenations of <= 3 "
+         "items of a 19-item universe. Every case is run on the real Marshal*, ObjectsWriter.Write*, Writable*Size and Unmarshal* (newBuf "
+         "false/true with the source overwritten) and compared byte for byte; inputs that begin with a valid encoding followed by arbitrary "
+         "bytes are replayed too; seeded random streams (random 64-bit values and strings) are validated by TLC against WireTrace.tla. "
+         "The spec is a format definition used as oracle and exhaustive case generator: assurance is exploration-like beyond the enumerated classes.",
+    note="Trusted: TLC, WireFormat.tla (Enc/Size/Dictated/Want), the adapter's digit-sequence <-> uint64 conversion and its mirror of Expand; uint is 64 bits on this platform.",
+    technique="TLA+ wire-format contract + implementation-shaped encoder/decoder automata, TLC case enumeration with per-case replay on the real code, TLC trace validation of random streams",
+    design_ref="DESIGN.md section 4, C15")
+CHECKS["C16"] = dict(
+    text="WireFormat.tla's decoders are byte-at-a-time automata; WireDec.tla lets TLC reach every input over the byte classes {00,01,7f,80,81,ff} "
+         "up to length 6 (thorough 7) plus structured adversarial inputs (over-long varints of 9..12 and 30 continuation bytes, length prefixes "
+         "2^31-1 .. 2^64-1 with empty/short/truncated bodies, honest prefixes with short-by-one/exact/over-complete bodies, 16 KiB bodies in thorough) "
+         "and checks on the spec that every automaton is total (ok => 0 < n <= len and body inside the input; fail => n = 0). Every input is fed to "
+         "all seven real Unmarshal* (newBuf false/true, with exact and with slack capacity behind the input, panics recovered); seeded mutations "
+         "of valid encodings are recorded and validated by TLC. Verdict only for: panic, n outside 1..len on success, returned bytes not a sub-range "
+         "of the input, n != 0 on failure. Whether over-long / non-canonical varints are accepted is left open (difference from the automaton = drift).",
+    note="Trusted: TLC, WireFormat!Total, the adapter's panic recovery and alias-range test (unsafe pointer arithmetic on the input's backing array).",
+    technique="TLA+ decoder automata with totality invariants, TLC input-space enumeration with per-input replay on the real decoders, TLC trace validation of mutated encodings",
+    design_ref="DESIGN.md section 4, C16")
+CHECKS["C07"] = dict(
+    text="KvWait.tla states the waiter contract on top of KvStore.tla: every call carries the set `may` of replies (nil / ErrNotExist / ctx "
+         "error) whose condition held at some state since its invocation; it may return only a member of `may`, and it is overdue as soon "
+         "as a condition holds (TLC-checked lemma: once overdue, always overdue). TLC enumerates the script graph (<= 3 waiters, <= 2 keys; "
+         "start with current/stale/unknown version and live/done context, cancel, Put, Put with expiry, PutMany, CAS ok/conflict/notexist, "
+         "Delete, Create, time passing), one script per edge, each replayed on a fresh in-memory store and on the Redis client over "
+         "miniredis with a settle after every command (overdue waiters must return within 5 s with an explainable reply, all others must "
+         "stay blocked, the in-memory waiter table must be empty whenever no call is in progress). InmemWaitImpl.tla models the waiters-group "
+         "table of kvs/inmem per critical section and TLC checks, for every interleaving in the bound, refinement of the contract, no lost "
+         "wake-up, no stranded waiter, give-up disturbs nobody, no residue, no double close, and Overdue ~> returned. Recorded executions "
+         "(32 waiters x 8 writers free-running; rounds under a seeded scheduler that holds calls at the gate of their context between "
+         "registration and parking; Redis rounds) are validated by TLC against the fine-grained contract with silent linearization steps. "
+         "Bounded model checking plus conformance; races inside the library are only provoked, not commanded.",
+    note="Trusted: TLC, KvStore.tla/KvWait.tla, miniredis, the accessor inmem.VerifWaiterTable (reads len and counts under the store lock), "
+         "the 5 s bound for 'promptly'. Store replies off the KvStore contract are left to C02/C03.",
+    technique="TLA+ contract + implementation-shaped spec, TLC refinement/invariant/liveness check, per-edge script replay with settle on both "
+              "backends, TLC trace validation (linearization search) of free-running and gate-scheduled executions",
+    design_ref="DESIGN.md section 4, C07")
 
 
 PENDING_REASON = "check not built yet in this round; the TLA+ design for it is in DESIGN.md section 4"
